@@ -261,12 +261,18 @@ func (r *WireReader) Skip(n int) error {
 	if n < 0 {
 		return errors.New("encoding.WireReader.Skip: backword skipping is not allowed")
 	}
-	r.pos += n
-	for r.pos > len(r.wire[r.seg]) {
-		r.pos -= len(r.wire[r.seg])
-		r.seg++
-		if r.seg >= len(r.wire) {
+	for n > 0 {
+		if !r.nextSeg() {
 			return io.EOF
+		}
+		avail := len(r.wire[r.seg]) - r.pos
+		if n <= avail {
+			r.pos += n
+			n = 0
+		} else {
+			n -= avail
+			r.seg++
+			r.pos = 0
 		}
 	}
 	return nil
